@@ -1,6 +1,9 @@
 package gojq
 
-import "sync"
+import (
+	"math/big"
+	"sync"
+)
 
 // C05 / C06 — isolation and concurrent use, decided by the interpreter's
 // heap-provenance monitor: everything that exists before the run (the *Code, the
@@ -24,6 +27,14 @@ var c05Progs = []string{
 	`[range(3)] as $a | ($a + [10], $a + [20])`, `[range(3)] as $a | [$a + [10], $a + [20]]`, `[.[]?] as $a | ($a + [1], $a + [2])`, `[.[]?] | (. + [1]), (. + [2])`, `. as $a | [$a[:1] + [10], $a[:1] + [20], $a]?`, `[$v[]] as $a | [$a + ["x"], $a + ["y"], $a]`,
 	`[.[]?] | [. + [1], . + [2]] | .[0]`, `[limit(3; repeat(1))] as $a | [$a + [2], $a + [3]]`, `(. // []) as $a | [$a + [[1]], $a + [[2]]]?`, `[.[]?] as $a | $a + [1] | [., $a + [2]]`,
 	`$v`, `$v | .[0] = 9`, `$v | del(.[0])`, `[$v, $v] | .[0][0] = 1`, `. as $x | $v | .[1:] = $x?`, `$v + .?`, `[$v[]?] | sort`, `$v | map(. )`, `$v | .[0] += 1`, `[., $v] | del(.[][0]?)`,
+	// integers beyond 64 bits: literals in the code, values in the input, in-place arithmetic
+	`10000000000000000000 * .?`, `. * 10000000000000000000?`, `10000000000000000000 + .?`, `10000000000000000000 - .?`, `10000000000000000000 % 7`, `10000000000000000000 / 10`,
+	`-10000000000000000000 | abs`, `[-10000000000000000000 | abs, .]`, `-100000000000000000000 | [abs, length, -., .]`, `10000000000000000000 | -(.)`, `[10000000000000000000 | ., . * 3, .]`,
+	`.[0]? * 3`, `[.[]? | abs?]`, `[.[]? | -(.)?]`, `[.[]? | . % 7?]`, `[.[]? | . + 1?]`, `[.[]? | . - 1?]`, `[.[]? | length?]`, `.[0]? as $x | [$x * 3, $x]`, `[.[]? | tostring]`, `[.[]? | floor?]`,
+	`[.[]?] | sort`, `[.[]?] | add`, `[.[]?] | min, max`, `[.[]?] | unique`, `.[0]? *= 2`, `.[0]? |= abs?`, `.[]? |= -(.)?`, `[.[]? | . * .?]`, `[.[]? | [., .] | .[0] * 2?]`,
+	// nested updates: an update whose body updates and deletes
+	`.[]? |= (if . == 1 then empty elif type == "array" then (.[0] |= empty) else . end)`, `.[]? |= (.[0]? |= empty)?`, `.[]? |= (.[]? |= empty)?`, `map_values(map_values(empty)?)?`,
+	`.[]? |= (if type == "array" then (.[0] |= empty) else empty end)`, `(.a, .b)? |= (.b? |= empty)?`, `.[]? |= (.[1:]? |= empty)?`, `[.[]? |= empty, (.[]? |= (.[]? |= empty)?)]`, `del(.[]?[0]?)`, `del(.[]?) | del(.[]?)`,
 	`ltrimstr("a")`, `ascii_downcase?`, `explode? | implode`, `split("a")? | join("a")`, `tojson | fromjson`, `tostring`, `@json`, `@base64? | @base64d`, `[splits("a")?]`, `sub("a"; "b")?`, `test("a")?`, `[match("a"; "g")?]`,
 	`[limit(2; range(5))]`, `[range(0; 3)]`, `path(..)`, `[path(.a[0]?)]`, `paths`, `paths(type == "number")`, `any`, `all`, `isempty(.[]?)`, `env`, `$ENV`, `builtins | length`, `halt_error?`, `error?`, `try error catch .`,
 }
@@ -36,7 +47,7 @@ func c05Input() any {
 		}
 		return hSmallInt()
 	}
-	switch nondetChoice(8) {
+	switch nondetChoice(10) {
 	case 0:
 		return map[string]any{"a": map[string]any{"b": hSmallInt()}, "c": []any{1, 2}}
 	case 1:
@@ -55,9 +66,51 @@ func c05Input() any {
 		return leaf()
 	case 6:
 		return map[string]any{"a": []any{leaf(), leaf()}, "b": leaf()}
+	case 8:
+		// integers beyond 64 bits, shared between two positions
+		neg, _ := new(big.Int).SetString("-100000000000000000000", 10)
+		pos, _ := new(big.Int).SetString("10000000000000000000", 10)
+		return []any{neg, pos, neg}
+	case 9:
+		return []any{leaf(), 1, []any{leaf(), leaf()}, []any{[]any{1}}}
 	default:
 		return []any{}
 	}
+}
+
+// hFull: a deep copy in which every slice is extended to its capacity: the hidden part
+// of a backing array is memory that a careless append writes into.
+func hFull(v any) any {
+	switch v := v.(type) {
+	case []any:
+		w := v[:cap(v)]
+		out := make([]any, len(w))
+		for i := range w {
+			out[i] = hFull(w[i])
+		}
+		return out
+	case map[string]any:
+		out := make(map[string]any, len(v))
+		for k, x := range v {
+			out[k] = hFull(x)
+		}
+		return out
+	case *big.Int:
+		return new(big.Int).Set(v)
+	}
+	return v
+}
+
+// hCodeConsts: the containers and big integers embedded in the compiled code
+func hCodeConsts(c *Code) []any {
+	out := []any{}
+	for _, cd := range c.codes {
+		switch v := cd.v.(type) {
+		case []any, map[string]any, *big.Int:
+			out = append(out, v)
+		}
+	}
+	return out
 }
 
 func c05Code(k int) *Code { return vmemo_compileVars(c05Progs[k], "$v") }
@@ -84,6 +137,8 @@ func H_C05_iso() {
 	input := c05Input()
 	v := []any{hSmallInt(), []any{hSmallInt()}}
 	inSnap, vSnap := hDeepCopy(input), hDeepCopy(v)
+	consts := hCodeConsts(code)
+	full := hFull([]any{input, v, consts})
 	vfreeze(code)
 	vfreeze(input)
 	vfreeze(v)
@@ -128,6 +183,7 @@ func H_C05_iso() {
 			}
 		}
 	}
+	vassert(hIdentical(hFull([]any{input, v, consts}), full), "nothing reachable from the input, the variables or the code's constants was written, spare capacity included")
 	vreach("end")
 }
 
@@ -144,17 +200,25 @@ func H_C06_shared() {
 	input := c05Input()
 	v := []any{hSmallInt(), []any{hSmallInt()}}
 	if vnative() {
+		consts := hCodeConsts(code)
+		full := hFull([]any{input, v, consts})
+		alone := hRun(code, hDeepCopy(input), 6, hDeepCopy(v))
 		var wg sync.WaitGroup
+		bad := make([]bool, 4)
 		for g := 0; g < 4; g++ {
 			wg.Add(1)
-			go func() {
+			go func(g int) {
 				defer wg.Done()
 				for r := 0; r < 50; r++ {
-					hRun(code, input, 6, v)
+					if !c06Same(hRun(code, input, 6, v), alone) {
+						bad[g] = true
+					}
 				}
-			}()
+			}(g)
 		}
 		wg.Wait()
+		vassert(!bad[0] && !bad[1] && !bad[2] && !bad[3], "every concurrent run yields what the run yields alone")
+		vassert(hIdentical(hFull([]any{input, v, consts}), full), "the shared input, variables and code constants are unchanged after the concurrent runs")
 		return
 	}
 	vfreeze(code)
@@ -162,6 +226,75 @@ func H_C06_shared() {
 	vfreeze(v)
 	vmonitor(2)
 	hRun(code, input, 6, v)
+	vmonitor(0)
+	vreach("end")
+}
+
+func c06Same(a, b []any) bool {
+	if len(a) != len(b) {
+		return false
+	}
+	for i := range a {
+		_, ea := a[i].(error)
+		_, eb := b[i].(error)
+		if ea != eb || !ea && !hIdentical(a[i], b[i]) {
+			return false
+		}
+	}
+	return true
+}
+
+// H_C06_query: a parsed Query is shared as well: compiling and running it writes nothing
+// into the syntax tree or into package-level data (Query.Run compiles on every call).
+// Natively: 4 goroutines x 30 q.Run under the race detector.
+func H_C06_query() {
+	k := c05Pick()
+	vlabel("prog", c05Progs[k])
+	q := vmemo_parse(c05Progs[k])
+	if q == nil {
+		return
+	}
+	input := c05Input()
+	run := func() []any {
+		it := q.Run(input)
+		var out []any
+		for n := 0; n < 6; n++ {
+			o, ok := it.Next()
+			if !ok {
+				break
+			}
+			out = append(out, o)
+			if _, isErr := o.(error); isErr {
+				break
+			}
+		}
+		return out
+	}
+	if vnative() {
+		text := q.String()
+		alone := run()
+		var wg sync.WaitGroup
+		bad := make([]bool, 4)
+		for g := 0; g < 4; g++ {
+			wg.Add(1)
+			go func(g int) {
+				defer wg.Done()
+				for r := 0; r < 30; r++ {
+					if !c06Same(run(), alone) {
+						bad[g] = true
+					}
+				}
+			}(g)
+		}
+		wg.Wait()
+		vassert(!bad[0] && !bad[1] && !bad[2] && !bad[3], "every concurrent Query.Run yields what it yields alone")
+		vassert(q.String() == text, "the syntax tree is unchanged")
+		return
+	}
+	vfreeze(q)
+	vfreeze(input)
+	vmonitor(2)
+	run()
 	vmonitor(0)
 	vreach("end")
 }
